@@ -190,6 +190,7 @@ fn main() {
     ctx.set_rule("every static (no fvar) glyf or CFF font of the repository corpus + the vendored DejaVu/Liberation/FiraSans fonts x all glyphs x {font units; ppem grid: every integer 1..=256, 288..=1024 step 32, 1200, 1500, 1600, 1800, 2000 (thorough) / a seeded 40-size sample per font and mode (quick)} x {unhinted, interpreter x {mono, normal, light, LCD, vertical LCD}, autohinter (normal) on the frozen agreement fonts}; FreeType side and path normalisation through fauntlet's adapters (FreeTypeInstance, SkrifaInstance, RegularizingPen); oracle: exact equality of the regularised command streams and of the advance width where skrifa reports one. A case = (font, mode, ppem) comparing all glyphs; evaluations count glyph comparisons. Non-trivial: the case compared >= 1 glyph with a non-empty outline and (for hinted modes) the font carries fpgm/prep or CFF hints; distinct by (font, mode, ppem).");
     ctx.assume("the oracle is the FreeType version built by freetype-sys as linked by fauntlet (2.12.1); listed discrepancies of the unchanged tree are excluded from the grid by construction and reproduced in a dedicated stage");
     ctx.assume("the autohinter is compared only on the frozen font list corpus/c03_auto_agree.json (fonts on which skrifa's autohinter agrees with this FreeType build at every grid size on the unchanged tree): FreeType 2.12.1's autohinter differs from the newer one skrifa ports on most other fonts, and the property restricts the autohinter to where the baseline agrees");
+    ctx.assume("stage `synthetic` generates only programs whose result both engines define independently of what was loaded before: operands in range for the zone they are read through (tracked zp0-2 / rp0-2), twilight points written by glyph programs are re-initialised by each glyph program that uses the twilight zone (FreeType keeps them across glyphs), the control value program starts by putting twilight zone, storage and graphics state into the clean state (FreeType runs it twice for smooth targets without clearing), WCVTF in glyph programs only after a WCVTP of the same program (FreeType 2.12.1 writes the size's CVT otherwise), 32-bit-safe arithmetic, SDPVTL[perpendicular] only on points with distinct original positions, forward jumps only; see vft/src/synth.rs");
     let fonts = static_outline_fonts();
     ctx.note("fonts", serde_json::json!(fonts.iter().map(|f| f.name.clone()).collect::<Vec<_>>()));
     let grid = full_grid();
@@ -276,9 +277,16 @@ fn main() {
     ctx.index_stage("known-discrepancies", Isolation::Threads, known.len() as u64, |i| known[i as usize].clone(), |c, s| test(&fonts, c, s, Some(&agree), false));
     // generated instructed fonts (valid glyph programs over a broad opcode set; composites with offsets, point anchors,
     // nesting and scales): reach what the frozen corpus does not use
-    ctx.prop_stage("synthetic", Isolation::Threads, ctx.n(60_000, 600_000), synth::strategy, |f: &synth::SynthFont, s| test_synth(f, s, true));
-    // the two listed composite-offset discrepancies, reproduced on purpose (KNOWN-FINDING lines)
-    ctx.prop_stage("synthetic-known", Isolation::Threads, ctx.n(300, 1000), || synth::strategy().prop_map(|mut f| {
+    // (VERIF_C03_NO_EXCLUDE: development aid, runs the listed classes too)
+    let no_exclude = std::env::var("VERIF_C03_NO_EXCLUDE").is_ok();
+    ctx.prop_stage("synthetic", Isolation::Threads, ctx.n(60_000, 600_000), synth::strategy, |f: &synth::SynthFont, s| test_synth(f, s, !no_exclude));
+    ctx.note("synthetic_instruction_classes", synth_class_note());
+    // the listed discrepancies, reproduced on purpose (KNOWN-FINDING lines): the two composite-offset ones on generated
+    // fonts, the interpreter ones on the minimised fonts that exposed them (excluded by construction from `synthetic`)
+    ctx.prop_stage("synthetic-known", Isolation::Threads, ctx.n(300, 1000), || (synth::strategy(), 0usize..9).prop_map(|(mut f, k)| {
+        if k >= 6 {
+            return serde_json::from_str::<synth::SynthFont>(KNOWN_INTERPRETER_CASES[k - 6]).expect("literal case");
+        }
         for comps in f.composites.iter_mut() {
             for c in comps.iter_mut() {
                 c.by_points = false;
@@ -293,13 +301,48 @@ fn main() {
     ctx.finish();
 }
 
+/// minimised generated fonts, one per listed interpreter discrepancy (sigs `c03|synthetic|interpreter|*|<class>`)
+const KNOWN_INTERPRETER_CASES: [&str; 3] = [
+    // instctrl3
+    r#"{"comp_programs":[{"flag_on_all":false,"ops":[{"Miap":{"c":0,"p":0,"r":false}}]}],"composites":[[{"a":1,"b":0,"by_points":false,"offset_mode":0,"round_to_grid":false,"scale":[0,-2,0,0],"scale_kind":0,"target":15,"use_my_metrics":false}]],"cvt":[],"fdefs":[],"prep":[],"simple":[{"advance":200,"contours":[[[0,0,false],[0,0,false],[0,0,false]]],"program":[{"InstCtrl":{"on":true,"sel":2}}]}],"tw_prep_owned":0,"twilight":4,"upem":1000}"#,
+    // instctrl2
+    r#"{"comp_programs":[],"composites":[],"cvt":[],"fdefs":[],"prep":[{"InstCtrl":{"on":true,"sel":1}},{"Smd":0}],"simple":[{"advance":200,"contours":[[[0,0,false],[0,0,false],[0,0,false],[0,0,false],[0,0,false],[0,0,false],[0,0,false]]],"program":[{"Mdrp":{"fl":8,"p":81}}]}],"tw_prep_owned":0,"twilight":4,"upem":1000}"#,
+    // shz
+    r#"{"comp_programs":[{"flag_on_all":false,"ops":[]},{"flag_on_all":false,"ops":[{"Miap":{"c":111,"p":244,"r":true}},{"Shz":{"a":true,"e":false}}]},{"flag_on_all":true,"ops":[]},{"flag_on_all":false,"ops":[]}],"composites":[[{"a":0,"b":0,"by_points":false,"offset_mode":0,"round_to_grid":false,"scale":[0,0,0,-3858],"scale_kind":0,"target":0,"use_my_metrics":false}],[{"a":0,"b":0,"by_points":false,"offset_mode":0,"round_to_grid":false,"scale":[0,-2805,30649,17857],"scale_kind":0,"target":0,"use_my_metrics":false}],[{"a":-84,"b":718,"by_points":false,"offset_mode":0,"round_to_grid":true,"scale":[-30801,-30368,-31852,12516],"scale_kind":0,"target":113,"use_my_metrics":false},{"a":4,"b":-42,"by_points":false,"offset_mode":0,"round_to_grid":true,"scale":[4794,-19481,31148,-25520],"scale_kind":1,"target":14,"use_my_metrics":false},{"a":-290,"b":-357,"by_points":false,"offset_mode":0,"round_to_grid":true,"scale":[-16665,15591,-28076,17554],"scale_kind":1,"target":194,"use_my_metrics":false}],[{"a":53,"b":249,"by_points":false,"offset_mode":2,"round_to_grid":true,"scale":[-32276,8722,16987,21652],"scale_kind":0,"target":240,"use_my_metrics":false},{"a":699,"b":-181,"by_points":true,"offset_mode":0,"round_to_grid":false,"scale":[-1191,31826,16868,25667],"scale_kind":1,"target":193,"use_my_metrics":false},{"a":-346,"b":514,"by_points":true,"offset_mode":0,"round_to_grid":false,"scale":[7735,7074,4278,8556],"scale_kind":1,"target":123,"use_my_metrics":true}]],"cvt":[],"fdefs":[],"prep":[],"simple":[{"advance":200,"contours":[[[0,0,false],[0,0,false],[0,0,false]]],"program":[]},{"advance":200,"contours":[[[0,0,false],[0,0,false],[0,0,false]]],"program":[]}],"tw_prep_owned":231,"twilight":10,"upem":1000}"#,
+];
+
+static SYNTH_CLASSES: std::sync::Mutex<std::collections::BTreeMap<(&'static str, u8), u64>> = std::sync::Mutex::new(std::collections::BTreeMap::new());
+
+/// instruction kinds the generated programs contained, by the zone pointers in effect (T = twilight, G = glyph zone)
+fn synth_class_note() -> serde_json::Value {
+    let acc = SYNTH_CLASSES.lock().unwrap();
+    let mut m = serde_json::Map::new();
+    for ((name, code), v) in acc.iter() {
+        let key = if *code == 0xFF {
+            name.to_string()
+        } else {
+            let z = |b: u8| if code & b != 0 { 'G' } else { 'T' };
+            format!("{name} zp0={} zp1={} zp2={}", z(1), z(2), z(4))
+        };
+        m.insert(key, serde_json::json!(v));
+    }
+    serde_json::Value::Object(m)
+}
+
 fn test_synth(f: &synth::SynthFont, stats: &Stats, skip_known: bool) -> CaseResult {
     let built = synth::build(f);
     let dir = verif_dir().join("harness/target/tmp/c03-synth");
     let _ = std::fs::create_dir_all(&dir);
-    let path = dir.join(format!("{}-{:016x}.ttf", std::process::id(), hash_json(f)));
+    // unique per call: equal fonts may be under test in several threads at once (the file is memory-mapped)
+    static SERIAL: std::sync::atomic::AtomicU64 = std::sync::atomic::AtomicU64::new(0);
+    let path = dir.join(format!("{}-{}-{:016x}.ttf", std::process::id(), SERIAL.fetch_add(1, std::sync::atomic::Ordering::Relaxed), hash_json(f)));
     std::fs::write(&path, &built.bytes).map_err(|e| Fail::new("c03|harness|tmp-write", e.to_string()))?;
     let r = compare_synth(&path, f, &built, stats, skip_known);
+    if r.is_err() {
+        if let Ok(d) = std::env::var("VERIF_C03_KEEP_FONT") {
+            let _ = std::fs::write(d, &built.bytes);
+        }
+    }
     let _ = std::fs::remove_file(&path);
     r
 }
@@ -326,9 +369,11 @@ fn compare_synth(path: &std::path::Path, f: &synth::SynthFont, built: &synth::Bu
             for gid in 0..built.num_glyphs {
                 let g = GlyphId::from(gid);
                 let feat = built.feature.get(gid as usize).copied().unwrap_or(0);
-                if skip_known && feat != 0 {
+                let kn = synth::known_for_mode(built.known.get(gid as usize).copied().unwrap_or(0) | built.known_font, mode);
+                if skip_known && (feat != 0 || kn != 0) {
                     // listed discrepancy (component offset flags + transform): excluded here, reproduced by `synthetic-known`
                     stats.class("excluded_known");
+                    stats.class(if feat != 0 { "excluded_known:composite-offset-flags" } else { synth::known_sig(kn) });
                     continue;
                 }
                 let mut fo: Vec<PathElement> = vec![];
@@ -357,8 +402,12 @@ fn compare_synth(path: &std::path::Path, f: &synth::SynthFont, built: &synth::Bu
                     }
                 }
                 if let Some(w) = why {
+                    if std::env::var("VERIF_C03_DEBUG").is_ok() {
+                        eprintln!("DEBUG mode {mode} ppem {ppem} gid {gid}: {w}\n   FT {fo:?}\n   SK {so:?}");
+                        continue;
+                    }
                     return Err(Fail::new(
-                        format!("c03|synthetic|{}|{}|{}", mode_kind(mode), what, ["plain", "scaled-offset-with-transform", "both-offset-flags-with-transform"][feat as usize % 3]),
+                        format!("c03|synthetic|{}|{}|{}", mode_kind(mode), what, if feat != 0 { ["plain", "scaled-offset-with-transform", "both-offset-flags-with-transform"][feat as usize % 3] } else { synth::known_sig(kn) }),
                         format!("generated font, glyph {gid} ({what}), mode {:?}, ppem {ppem}: {w}", mode_of(mode)),
                     ));
                 }
@@ -367,6 +416,19 @@ fn compare_synth(path: &std::path::Path, f: &synth::SynthFont, built: &synth::Bu
     }
     stats.evals(compared);
     stats.class_n("synthetic_glyph_comparisons", compared);
+    {
+        let mut acc = SYNTH_CLASSES.lock().unwrap();
+        for (k, v) in &built.classes {
+            *acc.entry(*k).or_insert(0) += *v as u64;
+        }
+    }
+    if built.anchored_nested_nonfirst {
+        stats.class("synthetic_anchored_composite_as_non_first_component");
+    }
+    if built.comp_instructions {
+        stats.class("synthetic_composite_instructions");
+    }
+    stats.class(["synthetic_depth0", "synthetic_depth1", "synthetic_depth2", "synthetic_depth3", "synthetic_depth4"][built.max_depth.min(4) as usize]);
     if built.has_point_anchor_nested {
         stats.class("synthetic_nested_point_anchor");
     }
